@@ -84,54 +84,145 @@ Proof.
   - rewrite (Ht _ eq_refl). exact E.
 Qed.
 
-Lemma fle_frel {A} (f g : A -> option (list mst)) : fle f g -> frel f g.
-Proof. intros H x r E. exists r. split; [apply H; exact E|apply dd_refl]. Qed.
+Lemma fle_frelP {A} (P : A -> Prop) (f g : A -> option (list mst)) : fle f g -> frelP P f g.
+Proof. intros H x r _ E. exists r. split; [apply H; exact E|apply dd_refl]. Qed.
 
-Lemma cat_frel2 (rf rf' : node -> mst -> option (list mst)) : forall l l',
-  Forall2 (fun c c' => frel (rf c) (rf' c')) l l' ->
-  forall xs xs' r, dd xs xs' -> cat_results rf l xs = Some r ->
-  exists r', cat_results rf' l' xs' = Some r' /\ dd r r'.
-Proof.
-  induction 1 as [|c c' l l' Hc Hl IH]; intros xs xs' r Hd E; cbn [cat_results] in *.
-  - inversion E; subst. exists xs'. split; [reflexivity|exact Hd].
-  - destruct (obindm (rf c) xs) as [ys|] eqn:Eb; [|discriminate].
-    destruct (obindm_frel _ _ Hc xs xs' ys Hd Eb) as [ys' [Eb' Dy]]. rewrite Eb'. eapply IH; eauto.
-Qed.
+Section Guarded.
+  (* the positions at which the text is known to be well-formed (character boundaries); everything below is relative
+     to states at such positions, and needs the functions involved to stay among them *)
+  Variable okp : nat -> Prop.
+  Definition oks (x : mst) : Prop := okp (fst x).
+  Definition okl (l : list mst) : Prop := Forall oks l.
+  Definition clo (f : mst -> option (list mst)) : Prop := forall x r, oks x -> f x = Some r -> okl r.
+  Definition frelO := @frelP mst oks.
+  Definition fleO (s s' : nat -> option (option nat)) : Prop := forall q o, okp q -> s q = Some o -> s' q = Some o.
+  Definition sclo (s : nat -> option (option nat)) : Prop := forall q q', okp q -> s q = Some (Some q') -> okp q'.
 
-Lemma loop_frel (bodyf bodyf' : mst -> option (list mst)) mn mx gr egs ege : frel bodyf bodyf' ->
-  forall lf lf', (lf <= lf')%nat -> forall k entry,
-  frel (loop_results bodyf mn mx gr egs ege lf k entry) (loop_results bodyf' mn mx gr egs ege lf' k entry).
-Proof.
-  intros Hb. induction lf as [|lf IH]; intros lf' Hle k entry y r E; [discriminate|].
-  destruct lf' as [|lf']; [lia|]. cbn [loop_results] in *.
-  destruct ((0 <? k) && (mn <? k) && (entry =? fst y)%nat); [exists r; split; [exact E|apply dd_refl]|].
-  assert (Hit : forall it,
-    match reset_groups (snd y) egs (ege - egs) with
-    | None => None
-    | Some g1 => match bodyf (fst y, g1) with
-                 | None => None
-                 | Some zs => obindm (loop_results bodyf mn mx gr egs ege lf (k + 1) (fst y)) zs
-                 end
-    end = Some it ->
-    exists it', 
-    match reset_groups (snd y) egs (ege - egs) with
-    | None => None
-    | Some g1 => match bodyf' (fst y, g1) with
-                 | None => None
-                 | Some zs => obindm (loop_results bodyf' mn mx gr egs ege lf' (k + 1) (fst y)) zs
-                 end
-    end = Some it' /\ dd it it').
-  { intros it Ei. destruct (reset_groups (snd y) egs (ege - egs)) as [g1|]; [|discriminate].
-    destruct (bodyf (fst y, g1)) as [zs|] eqn:Ez; [|discriminate].
-    destruct (Hb _ _ Ez) as [zs' [Ez' Dz]]. rewrite Ez'.
-    eapply obindm_frel; [|exact Dz|exact Ei]. apply IH. lia. }
-  destruct (negb (k <? max_val mx) && negb (mn <=? k)); [exists r; split; [exact E|apply dd_refl]|].
-  destruct (negb (k <? max_val mx)); [exists r; split; [exact E|apply dd_refl]|].
-  destruct (negb (mn <=? k)); [apply Hit; exact E|].
-  match type of E with match ?itx with _ => _ end = _ => destruct itx as [it|] eqn:Ei; [|discriminate] end.
-  destruct (Hit it eq_refl) as [it' [Ei' Di]]. rewrite Ei'. inversion E; subst.
-  eexists. split; [reflexivity|]. destruct gr; [apply dd_app; [exact Di|apply dd_refl]|apply dd_cons; exact Di].
-Qed.
+  Lemma fleO_refl s : fleO s s.
+  Proof. intros q o _ E. exact E. Qed.
+  Lemma fleO_trans a b c : fleO a b -> fleO b c -> fleO a c.
+  Proof. intros H1 H2 q o Hq E. apply H2; [exact Hq|]. apply H1; assumption. Qed.
+
+  Lemma obindm_okl {A} (P : A -> Prop) (f : A -> option (list mst)) :
+    (forall x r, P x -> f x = Some r -> okl r) -> forall xs ys, Forall P xs -> obindm f xs = Some ys -> okl ys.
+  Proof.
+    intro Hc. induction xs as [|x xs IH]; intros ys Hx E; cbn [obindm] in E; [inversion E; constructor|].
+    destruct (f x) as [a|] eqn:Ea; [|discriminate]. destruct (obindm f xs) as [b|] eqn:Eb; [|discriminate].
+    inversion E; subst. inversion Hx; subst. apply Forall_app. split; [eapply Hc; eauto|apply IH; auto].
+  Qed.
+
+  Lemma cat_okl (rf : node -> mst -> option (list mst)) : forall l, Forall (fun c => clo (rf c)) l ->
+    forall xs r, okl xs -> cat_results rf l xs = Some r -> okl r.
+  Proof.
+    induction 1 as [|c l Hc Hl IH]; intros xs r Hx E; cbn [cat_results] in E; [inversion E; subst; exact Hx|].
+    destruct (obindm (rf c) xs) as [ys|] eqn:Eb; [|discriminate].
+    eapply IH; [|exact E]. eapply (obindm_okl oks); [exact Hc|exact Hx|exact Eb].
+  Qed.
+
+  Lemma cat_frelO (rf rf' : node -> mst -> option (list mst)) : forall l l',
+    Forall2 (fun c c' => frelO (rf c) (rf' c') /\ clo (rf c)) l l' ->
+    forall xs xs' r, okl xs -> dd xs xs' -> cat_results rf l xs = Some r ->
+    exists r', cat_results rf' l' xs' = Some r' /\ dd r r'.
+  Proof.
+    induction 1 as [|c c' l l' [Hc Hcl] Hl IH]; intros xs xs' r Hx Hd E; cbn [cat_results] in *.
+    - inversion E; subst. exists xs'. split; [reflexivity|exact Hd].
+    - destruct (obindm (rf c) xs) as [ys|] eqn:Eb; [|discriminate].
+      destruct (obindm_frelP oks _ _ Hc xs xs' ys Hx Hd Eb) as [ys' [Eb' Dy]]. rewrite Eb'.
+      eapply IH; [|exact Dy|exact E]. eapply (obindm_okl oks); [exact Hcl|exact Hx|exact Eb].
+  Qed.
+
+  Lemma loop_okl (bodyf : mst -> option (list mst)) mn mx gr egs ege : clo bodyf ->
+    forall lf k entry, clo (loop_results bodyf mn mx gr egs ege lf k entry).
+  Proof.
+    intro Hb. induction lf as [|lf IH]; intros k entry y r Hy E; [discriminate|]. cbn [loop_results] in E.
+    destruct ((0 <? k) && (mn <? k) && (entry =? fst y)%nat); [inversion E; constructor|].
+    assert (Hit : forall it,
+      match reset_groups (snd y) egs (ege - egs) with
+      | None => None
+      | Some g1 => match bodyf (fst y, g1) with
+                   | None => None
+                   | Some zs => obindm (loop_results bodyf mn mx gr egs ege lf (k + 1) (fst y)) zs
+                   end
+      end = Some it -> okl it).
+    { intros it Ei. destruct (reset_groups (snd y) egs (ege - egs)) as [g1|]; [|discriminate].
+      destruct (bodyf (fst y, g1)) as [zs|] eqn:Ez; [|discriminate].
+      assert (Hz : okl zs) by (eapply Hb; [|exact Ez]; exact Hy).
+      eapply (obindm_okl oks); [|exact Hz|exact Ei]. intros x r0 Hx Er. eapply IH; eauto. }
+    destruct (negb (k <? max_val mx) && negb (mn <=? k)); [inversion E; constructor|].
+    destruct (negb (k <? max_val mx)); [inversion E; subst; constructor; [exact Hy|constructor]|].
+    destruct (negb (mn <=? k)); [apply Hit; exact E|].
+    match type of E with match ?itx with _ => _ end = _ => destruct itx as [it|] eqn:Ei; [|discriminate] end.
+    pose proof (Hit it eq_refl) as Hi. inversion E; subst.
+    destruct gr; [apply Forall_app; split; [exact Hi|constructor; [exact Hy|constructor]]|constructor; [exact Hy|exact Hi]].
+  Qed.
+
+  Lemma loop_frelO (bodyf bodyf' : mst -> option (list mst)) mn mx gr egs ege : frelO bodyf bodyf' -> clo bodyf ->
+    forall lf lf', (lf <= lf')%nat -> forall k entry,
+    frelO (loop_results bodyf mn mx gr egs ege lf k entry) (loop_results bodyf' mn mx gr egs ege lf' k entry).
+  Proof.
+    intros Hb Hcl. induction lf as [|lf IH]; intros lf' Hle k entry y r Hy E; [discriminate|].
+    destruct lf' as [|lf']; [lia|]. cbn [loop_results] in *.
+    destruct ((0 <? k) && (mn <? k) && (entry =? fst y)%nat); [exists r; split; [exact E|apply dd_refl]|].
+    assert (Hit : forall it,
+      match reset_groups (snd y) egs (ege - egs) with
+      | None => None
+      | Some g1 => match bodyf (fst y, g1) with
+                   | None => None
+                   | Some zs => obindm (loop_results bodyf mn mx gr egs ege lf (k + 1) (fst y)) zs
+                   end
+      end = Some it ->
+      exists it',
+      match reset_groups (snd y) egs (ege - egs) with
+      | None => None
+      | Some g1 => match bodyf' (fst y, g1) with
+                   | None => None
+                   | Some zs => obindm (loop_results bodyf' mn mx gr egs ege lf' (k + 1) (fst y)) zs
+                   end
+      end = Some it' /\ dd it it').
+    { intros it Ei. destruct (reset_groups (snd y) egs (ege - egs)) as [g1|]; [|discriminate].
+      destruct (bodyf (fst y, g1)) as [zs|] eqn:Ez; [|discriminate].
+      assert (Hyy : oks (fst y, g1)) by exact Hy.
+      destruct (Hb _ _ Hyy Ez) as [zs' [Ez' Dz]]. rewrite Ez'.
+      eapply (obindm_frelP oks); [|eapply Hcl; [exact Hyy|exact Ez]|exact Dz|exact Ei]. apply IH. lia. }
+    destruct (negb (k <? max_val mx) && negb (mn <=? k)); [exists r; split; [exact E|apply dd_refl]|].
+    destruct (negb (k <? max_val mx)); [exists r; split; [exact E|apply dd_refl]|].
+    destruct (negb (mn <=? k)); [apply Hit; exact E|].
+    match type of E with match ?itx with _ => _ end = _ => destruct itx as [it|] eqn:Ei; [|discriminate] end.
+    destruct (Hit it eq_refl) as [it' [Ei' Di]]. rewrite Ei'. inversion E; subst.
+    eexists. split; [reflexivity|]. destruct gr; [apply dd_app; [exact Di|apply dd_refl]|apply dd_cons; exact Di].
+  Qed.
+
+  Lemma l1_okl (s : nat -> option (option nat)) chk gs mn mx gr : sclo s ->
+    forall lf k q r, okp q -> l1_results s chk gs mn mx gr lf k q = Some r -> okl r.
+  Proof.
+    intro Hs. induction lf as [|lf IH]; intros k q r Hq E; [discriminate|]. cbn [l1_results] in E.
+    destruct (if k <? max_val mx then s q else Some None) as [[q'|]|] eqn:Et; try discriminate.
+    - destruct (chk q q'); [|discriminate].
+      destruct (l1_results s chk gs mn mx gr lf (k + 1) q') as [it|] eqn:Ei; [|discriminate].
+      assert (Hq' : okp q') by (destruct (k <? max_val mx); [eapply Hs; eauto|discriminate]).
+      pose proof (IH (k + 1) q' it Hq' Ei) as Hi. inversion E; subst.
+      destruct (mn <=? k); [|exact Hi].
+      destruct gr; [apply Forall_app; split; [exact Hi|constructor; [exact Hq|constructor]]|constructor; [exact Hq|exact Hi]].
+    - inversion E; subst. destruct (mn <=? k); [constructor; [exact Hq|constructor]|constructor].
+  Qed.
+
+  Lemma l1_fleO (s s' : nat -> option (option nat)) chk gs mn mx gr : fleO s s' -> sclo s ->
+    forall lf lf', (lf <= lf')%nat -> forall k q r, okp q ->
+    l1_results s chk gs mn mx gr lf k q = Some r -> l1_results s' chk gs mn mx gr lf' k q = Some r.
+  Proof.
+    intros Hs Hc. induction lf as [|lf IH]; intros lf' Hle k q r Hq E; [discriminate|].
+    destruct lf' as [|lf']; [lia|]. cbn [l1_results] in *.
+    assert (Ht : forall t, (if k <? max_val mx then s q else Some None) = Some t ->
+                           (if k <? max_val mx then s' q else Some None) = Some t).
+    { intros t Et. destruct (k <? max_val mx); [apply Hs; [exact Hq|exact Et]|exact Et]. }
+    destruct (if k <? max_val mx then s q else Some None) as [[q'|]|] eqn:Et; try discriminate.
+    - rewrite (Ht _ eq_refl). destruct (chk q q'); [|discriminate].
+      destruct (l1_results s chk gs mn mx gr lf (k + 1) q') as [it|] eqn:Ei; [|discriminate].
+      assert (Hq' : okp q') by (destruct (k <? max_val mx); [eapply Hc; eauto|discriminate]).
+      rewrite (IH lf' ltac:(lia) (k + 1) q' it Hq' Ei). exact E.
+    - rewrite (Ht _ eq_refl). exact E.
+  Qed.
+End Guarded.
 
 Section Mono.
   Variable ix : indexer.
@@ -165,6 +256,72 @@ Section Mono.
       eapply l1_fle; [apply fle_refl|exact Hff|exact E].
   Qed.
 
+  (* ---- the positions at which the text is well-formed, and nodes that stay among them ---- *)
+  Variable okp : nat -> Prop.
+  Notation oks := (oks okp).
+  Notation okl := (okl okp).
+  Notation clo := (clo okp).
+  Notation frelO := (frelO okp).
+  Notation fleO := (fleO okp).
+  Notation sclo := (sclo okp).
+
+  (* a leaf stays among the good positions, as a node and as the body of a one-character loop *)
+  Definition lclo (n : node) : Prop :=
+    (forall f fwd, clo (IR f n fwd)) /\
+    (forall lb fwd s, single_step ix unicode h lb n fwd = Some s -> sclo s).
+
+  Fixpoint al (n : node) : Prop :=
+    match n with
+    | NCat l => (fix go (l : list node) : Prop := match l with [] => True | x :: t => al x /\ go t end) l
+    | NAlt a b => al a /\ al b
+    | NCaptureGroup _ c _ => al c
+    | NLookaround _ _ _ _ c => al c
+    | NLoop b _ _ _ _ _ => al b
+    | NLoop1CharBody b _ _ _ => al b
+    | leaf => lclo leaf
+    end.
+
+  Lemma al_cat l : al (NCat l) <-> Forall al l.
+  Proof.
+    cbn [al]. induction l as [|x l IH]; split; intro H.
+    - constructor.
+    - exact I.
+    - destruct H as [Hx Hl]. constructor; [exact Hx|apply IH; exact Hl].
+    - inversion H; subst. split; [assumption|apply IH; assumption].
+  Qed.
+
+  Lemma al_step n lb fwd s : al n -> single_step ix unicode h lb n fwd = Some s -> sclo s.
+  Proof.
+    intros Ha Es. destruct n; cbn [al] in Ha; try (exact (proj2 Ha lb fwd s Es)); discriminate Es.
+  Qed.
+
+  Theorem closed_al : forall f n fwd, al n -> clo (IR f n fwd).
+  Proof.
+    induction f as [|f IHf]; intros n fwd Ha [p G] r Hx E; [discriminate|].
+    destruct n as [ | |c|bs|bs|cs|l0|a b| | |sol ml|inv ui|id c nm|g ic|b|alts icase|ng bw sg' eg' c|body mn mx gr egs ege|body mn mx gr];
+      cbn [al] in Ha; try (exact (proj1 Ha (S f) fwd (p, G) r Hx E)); cbn [ir_results] in E.
+    - (* Cat *) eapply (cat_okl okp); [|constructor; [exact Hx|constructor]|exact E].
+      apply al_cat in Ha. eapply Forall_impl; [|exact Ha]. intros c Hc. apply IHf. exact Hc.
+    - (* Alt *)
+      destruct (IR f a fwd (p, G)) as [u|] eqn:Eu; [|discriminate].
+      destruct (IR f b fwd (p, G)) as [v|] eqn:Ev; [|discriminate]. inversion E; subst.
+      apply Forall_app. split; [eapply (IHf a fwd (proj1 Ha)); eauto|eapply (IHf b fwd (proj2 Ha)); eauto].
+    - (* CaptureGroup *)
+      destruct (upd_group id (set_group_start fwd p) G) as [G1|]; [|discriminate].
+      destruct (IR f c fwd (p, G1)) as [lc|] eqn:Ec; [|discriminate].
+      assert (Hlc : okl lc) by (eapply (IHf c fwd Ha); [|exact Ec]; exact Hx).
+      eapply (obindm_okl okp oks); [|exact Hlc|exact E].
+      intros y r0 Hy Er. cbn beta in Er. destruct (upd_group id (set_group_end fwd (fst y)) (snd y)); [|discriminate Er].
+      inversion Er; subst. constructor; [exact Hy|constructor].
+    - (* Lookaround *)
+      destruct (IR f c (negb bw) (p, G)) as [[|y lc]|]; [| |discriminate]; inversion E; subst;
+        destruct ng; constructor; try constructor; exact Hx.
+    - (* Loop *) eapply (loop_okl okp); [|exact Hx|exact E]. apply IHf. exact Ha.
+    - (* Loop1CharBody *)
+      destruct (single_step ix unicode h (negb fwd) body fwd) as [s|] eqn:Es; [|discriminate].
+      eapply (l1_okl okp); [eapply al_step; eauto|exact Hx|exact E].
+  Qed.
+
   (* ---- the refinement relation ---- *)
   (* the fuel stays below usize::MAX: iteration counts of the model are unbounded numbers, those of the code are
      usize; no run shorter than 2^64 steps can tell them apart *)
@@ -173,38 +330,38 @@ Section Mono.
   Proof. unfold fuel_ok. lia. Qed.
 
   Definition rres (fwd : bool) (n n' : node) : Prop :=
-    exists K, forall f, fuel_ok (f + K) -> frel (IR f n fwd) (IR (f + K) n' fwd).
+    exists K, forall f, fuel_ok (f + K) -> frelO (IR f n fwd) (IR (f + K) n' fwd).
   (* the reading of a node as the body of a one-character loop *)
   Definition rstep (fwd : bool) (n n' : node) : Prop :=
     l1_body_ok n = true ->
     l1_body_ok n' = true /\
     forall s, single_step ix unicode h (negb fwd) n fwd = Some s ->
-      exists s', single_step ix unicode h (negb fwd) n' fwd = Some s' /\ fle s s'.
+      exists s', single_step ix unicode h (negb fwd) n' fwd = Some s' /\ fleO s s'.
   Definition ref (fwd : bool) (n n' : node) : Prop := rres fwd n n' /\ rstep fwd n n'.
 
   Lemma ref_refl fwd n : ref fwd n n.
   Proof.
     split.
-    - exists 0%nat. intros f _. rewrite Nat.add_0_r. apply frel_refl.
-    - intro Hl. split; [exact Hl|]. intros s Es. exists s. split; [exact Es|apply fle_refl].
+    - exists 0%nat. intros f _. rewrite Nat.add_0_r. apply frelP_refl.
+    - intro Hl. split; [exact Hl|]. intros s Es. exists s. split; [exact Es|apply fleO_refl].
   Qed.
 
   Lemma ref_trans fwd a b c : ref fwd a b -> ref fwd b c -> ref fwd a c.
   Proof.
     intros [[K1 H1] S1] [[K2 H2] S2]. split.
     - exists (K1 + K2)%nat. intros f Hf. rewrite Nat.add_assoc in *.
-      eapply frel_trans; [apply H1; eapply fuel_ok_le; [|exact Hf]; lia|apply H2; exact Hf].
+      eapply frelP_trans; [apply H1; eapply fuel_ok_le; [|exact Hf]; lia|apply H2; exact Hf].
     - intro Hl. destruct (S1 Hl) as [Hl1 T1]. destruct (S2 Hl1) as [Hl2 T2]. split; [exact Hl2|].
       intros s Es. destruct (T1 s Es) as [s1 [E1 L1]]. destruct (T2 s1 E1) as [s2 [E2 L2]].
-      exists s2. split; [exact E2|eapply fle_trans; eauto].
+      exists s2. split; [exact E2|eapply fleO_trans; eauto].
   Qed.
 
   (* rres with more slack *)
-  Lemma rres_at fwd n n' K : (forall f, fuel_ok (f + K) -> frel (IR f n fwd) (IR (f + K) n' fwd)) ->
-    forall K', (K <= K')%nat -> forall f, fuel_ok (f + K') -> frel (IR f n fwd) (IR (f + K') n' fwd).
+  Lemma rres_at fwd n n' K : (forall f, fuel_ok (f + K) -> frelO (IR f n fwd) (IR (f + K) n' fwd)) ->
+    forall K', (K <= K')%nat -> forall f, fuel_ok (f + K') -> frelO (IR f n fwd) (IR (f + K') n' fwd).
   Proof.
-    intros H K' Hle f Hf. eapply frel_trans; [apply H; eapply fuel_ok_le; [|exact Hf]; lia|].
-    apply fle_frel. apply ir_fuel_mono. lia.
+    intros H K' Hle f Hf. eapply frelP_trans; [apply H; eapply fuel_ok_le; [|exact Hf]; lia|].
+    apply fle_frelP. apply ir_fuel_mono. lia.
   Qed.
 
   (* a node that is not a one-character leaf has no obligation as a loop body *)
@@ -212,7 +369,7 @@ Section Mono.
   Proof. intros Hn Hl. rewrite Hn in Hl. discriminate. Qed.
 
   Lemma forall2_slack fwd : forall l l', Forall2 (rres fwd) l l' ->
-    exists K, Forall2 (fun c c' => forall f, fuel_ok (f + K) -> frel (IR f c fwd) (IR (f + K) c' fwd)) l l'.
+    exists K, Forall2 (fun c c' => forall f, fuel_ok (f + K) -> frelO (IR f c fwd) (IR (f + K) c' fwd)) l l'.
   Proof.
     induction 1 as [|c c' l l' [K1 H1] Hl [K2 IH]]; [exists 0%nat; constructor|].
     exists (Nat.max K1 K2). constructor.
@@ -220,67 +377,75 @@ Section Mono.
     - eapply Forall2_imp; [|exact IH]. intros a b Hab. apply (rres_at fwd a b K2 Hab). lia.
   Qed.
 
-  Lemma ref_cat fwd l l' : Forall2 (ref fwd) l l' -> ref fwd (NCat l) (NCat l').
+  Lemma Forall2_and_left {A B} (P : A -> B -> Prop) (Q : A -> Prop) : forall l l',
+    Forall2 P l l' -> Forall Q l -> Forall2 (fun a b => P a b /\ Q a) l l'.
+  Proof. induction 1; intro HQ; inversion HQ; subst; constructor; auto. Qed.
+
+  Lemma ref_cat fwd l l' : Forall al l -> Forall2 (ref fwd) l l' -> ref fwd (NCat l) (NCat l').
   Proof.
-    intro HF. split; [|apply rstep_nol1; reflexivity].
+    intros Hal HF. split; [|apply rstep_nol1; reflexivity].
     assert (HF' : Forall2 (rres fwd) l l') by (eapply Forall2_imp; [|exact HF]; intros a b [Hab _]; exact Hab).
-    destruct (forall2_slack fwd l l' HF') as [K HK]. exists K. intros [|f] Hf [p G] r E; [discriminate|].
+    destruct (forall2_slack fwd l l' HF') as [K HK]. exists K. intros [|f] Hf [p G] r Hx E; [discriminate|].
     assert (Hf' : fuel_ok (f + K)) by (eapply fuel_ok_le; [|exact Hf]; lia).
-    cbn [Nat.add ir_results] in *. eapply cat_frel2; [|apply dd_refl|exact E].
-    eapply Forall2_imp; [|exact HK]. intros a b Hab. apply Hab. exact Hf'.
+    cbn [Nat.add ir_results] in *.
+    eapply (cat_frelO okp); [|constructor; [exact Hx|constructor]|apply dd_refl|exact E].
+    eapply Forall2_imp; [|apply (Forall2_and_left _ al _ _ HK Hal)].
+    intros a b [Hab Ha]. split; [apply Hab; exact Hf'|apply closed_al; exact Ha].
   Qed.
 
   Lemma ref_alt fwd a a' b b' : ref fwd a a' -> ref fwd b b' -> ref fwd (NAlt a b) (NAlt a' b').
   Proof.
     intros [[K1 H1] _] [[K2 H2] _]. split; [|apply rstep_nol1; reflexivity].
-    exists (Nat.max K1 K2). intros [|f] Hf [p G] r E; [discriminate|].
+    exists (Nat.max K1 K2). intros [|f] Hf [p G] r Hx E; [discriminate|].
     assert (Hf' : fuel_ok (f + Nat.max K1 K2)) by (eapply fuel_ok_le; [|exact Hf]; lia). cbn [Nat.add ir_results] in *.
     destruct (IR f a fwd (p, G)) as [u|] eqn:Eu; [|discriminate].
     destruct (IR f b fwd (p, G)) as [v|] eqn:Ev; [|discriminate].
-    destruct (rres_at fwd a a' K1 H1 (Nat.max K1 K2) ltac:(lia) f Hf' _ _ Eu) as [u' [Eu' Du]].
-    destruct (rres_at fwd b b' K2 H2 (Nat.max K1 K2) ltac:(lia) f Hf' _ _ Ev) as [v' [Ev' Dv]].
+    destruct (rres_at fwd a a' K1 H1 (Nat.max K1 K2) ltac:(lia) f Hf' _ _ Hx Eu) as [u' [Eu' Du]].
+    destruct (rres_at fwd b b' K2 H2 (Nat.max K1 K2) ltac:(lia) f Hf' _ _ Hx Ev) as [v' [Ev' Dv]].
     rewrite Eu', Ev'. inversion E; subst. eexists. split; [reflexivity|apply dd_app; assumption].
   Qed.
 
-  Lemma ref_cg fwd id nm c c' : ref fwd c c' -> ref fwd (NCaptureGroup id c nm) (NCaptureGroup id c' nm).
+  Lemma ref_cg fwd id nm c c' : al c -> ref fwd c c' -> ref fwd (NCaptureGroup id c nm) (NCaptureGroup id c' nm).
   Proof.
-    intros [[K H1] _]. split; [|apply rstep_nol1; reflexivity].
-    exists K. intros [|f] Hf [p G] r E; [discriminate|].
+    intros Ha [[K H1] _]. split; [|apply rstep_nol1; reflexivity].
+    exists K. intros [|f] Hf [p G] r Hx E; [discriminate|].
     assert (Hf' : fuel_ok (f + K)) by (eapply fuel_ok_le; [|exact Hf]; lia). cbn [Nat.add ir_results] in *.
     destruct (upd_group id (set_group_start fwd p) G) as [G1|]; [|discriminate].
     destruct (IR f c fwd (p, G1)) as [lc|] eqn:Ec; [|discriminate].
-    destruct (H1 f Hf' _ _ Ec) as [lc' [Ec' Dc]]. rewrite Ec'.
-    eapply obindm_frel; [apply frel_refl|exact Dc|exact E].
+    assert (Hx1 : oks (p, G1)) by exact Hx.
+    destruct (H1 f Hf' _ _ Hx1 Ec) as [lc' [Ec' Dc]]. rewrite Ec'.
+    eapply (obindm_frelP oks); [apply frelP_refl|eapply closed_al; [exact Ha|exact Hx1|exact Ec]|exact Dc|exact E].
   Qed.
 
   Lemma ref_look fwd ng bw sg eg c c' : ref (negb bw) c c' ->
     ref fwd (NLookaround ng bw sg eg c) (NLookaround ng bw sg eg c').
   Proof.
     intros [[K H1] _]. split; [|apply rstep_nol1; reflexivity].
-    exists K. intros [|f] Hf [p G] r E; [discriminate|].
+    exists K. intros [|f] Hf [p G] r Hx E; [discriminate|].
     assert (Hf' : fuel_ok (f + K)) by (eapply fuel_ok_le; [|exact Hf]; lia). cbn [Nat.add ir_results] in *.
     destruct (IR f c (negb bw) (p, G)) as [lc|] eqn:Ec; [|discriminate].
-    destruct (H1 f Hf' _ _ Ec) as [lc' [Ec' Dc]]. rewrite Ec'. pose proof (dd_head _ _ Dc) as Hh.
+    destruct (H1 f Hf' _ _ Hx Ec) as [lc' [Ec' Dc]]. rewrite Ec'. pose proof (dd_head _ _ Dc) as Hh.
     exists r. split; [|apply dd_refl].
     destruct lc as [|y lc]; destruct lc' as [|y' lc']; try contradiction; [exact E|subst y'; exact E].
   Qed.
 
-  Lemma ref_loop fwd body body' mn mx gr egs ege : ref fwd body body' ->
+  Lemma ref_loop fwd body body' mn mx gr egs ege : al body -> ref fwd body body' ->
     ref fwd (NLoop body mn mx gr egs ege) (NLoop body' mn mx gr egs ege).
   Proof.
-    intros [[K H1] _]. split; [|apply rstep_nol1; reflexivity].
-    exists K. intros [|f] Hf [p G] r E; [discriminate|].
+    intros Ha [[K H1] _]. split; [|apply rstep_nol1; reflexivity].
+    exists K. intros [|f] Hf [p G] r Hx E; [discriminate|].
     assert (Hf' : fuel_ok (f + K)) by (eapply fuel_ok_le; [|exact Hf]; lia). cbn [Nat.add ir_results] in *.
-    eapply loop_frel; [apply H1; exact Hf'| |exact E]. lia.
+    eapply (loop_frelO okp); [apply H1; exact Hf'|apply closed_al; exact Ha| |exact Hx|exact E]. lia.
   Qed.
 
-  Lemma ref_l1 fwd body body' mn mx gr : l1_body_ok body = true -> ref fwd body body' ->
+  Lemma ref_l1 fwd body body' mn mx gr : l1_body_ok body = true -> al body -> ref fwd body body' ->
     ref fwd (NLoop1CharBody body mn mx gr) (NLoop1CharBody body' mn mx gr).
   Proof.
-    intros Hl [_ S1]. split; [|apply rstep_nol1; reflexivity].
-    exists 0%nat. intros [|f] Hf [p G] r E; [discriminate|]. rewrite Nat.add_0_r. cbn [ir_results] in *.
+    intros Hl Ha [_ S1]. split; [|apply rstep_nol1; reflexivity].
+    exists 0%nat. intros [|f] Hf [p G] r Hx E; [discriminate|]. rewrite Nat.add_0_r. cbn [ir_results] in *.
     destruct (single_step ix unicode h (negb fwd) body fwd) as [s|] eqn:Es; [|discriminate].
     destruct (S1 Hl) as [_ T1]. destruct (T1 s Es) as [s2 [Es2 Hss]]. rewrite Es2.
-    exists r. split; [|apply dd_refl]. eapply l1_fle; [exact Hss| |exact E]. lia.
+    exists r. split; [|apply dd_refl].
+    eapply (l1_fleO okp); [exact Hss|eapply al_step; eauto| |exact Hx|exact E]. lia.
   Qed.
 End Mono.
